@@ -18,13 +18,13 @@ import (
 )
 
 type Solver struct {
-	cmd     *exec.Cmd
-	in      io.WriteCloser
-	out     *bufio.Reader
-	emitted map[int]bool
-	argv    []string
-	timeout int // ms per query
-	buf     strings.Builder
+	cmd        *exec.Cmd
+	in         io.WriteCloser
+	out        *bufio.Reader
+	emitted    map[int]bool
+	argv       []string
+	timeout    int // ms per query
+	buf        strings.Builder
 	transcript strings.Builder
 
 	Queries   int
